@@ -9,7 +9,9 @@ From TV Require Import Common.Harness C13.Model C13.Law.
 Import ListNotations.
 Open Scope Z_scope.
 
-Definition case := (list classdef * nat * list (op * obs) * list classdef * nat * list (op * obs))%type.
+Definition case :=
+  (list classdef * nat * list (op * obs) * list classdef * nat * list (op * obs) * list nat)%type.
+(* last component: type(obj).__mro__ of the main instance as class indices *)
 
 Definition outcome_eqb (a b : outcome) : bool :=
   match a, b with
@@ -34,15 +36,48 @@ Fixpoint corr_hist (pt : ptab) (i : Z) (s : state) (h : list (op * obs)) : list 
 
 Definition class_tables (h : list classdef) (c : nat) : ctab * ptab := tabs_nth (tables (roots ++ h)) c.
 
+(* code 3 (at step 0): the law's C3 linearisation is not Python's __mro__ *)
 Definition corr_codes (c : case) : list Z :=
-  let '(h1, k, pre, h2, cl, hist) := c in
+  let '(h1, k, pre, h2, cl, hist, mro_obs) := c in
   let t1 := class_tables h1 k in
   let t := tabs_nth (staged_tables (roots ++ h1) k (map fst pre) h2) cl in
-  corr_hist (snd t1) 0 (init_state (fst t1)) pre
+  chk 3 (list_eqb Nat.eqb (nth cl (mros (roots ++ h1 ++ h2)) []) mro_obs)
+  ++ corr_hist (snd t1) 0 (init_state (fst t1)) pre
   ++ corr_hist (snd t) (Z.of_nat (length pre)) (init_state (fst t)) hist.
 
-(* the law knows nothing of caches: the class-level rule is that of the declarations *)
+Definition vkind_eqb (a b : vkind) : bool :=
+  match a, b with VInt, VInt | VStr, VStr | VCInt, VCInt => true | _, _ => false end.
+Definition policy_eqb (a b : policy) : bool :=
+  match a, b with
+  | PPython, PPython | PDisallow, PDisallow | PReadOnly, PReadOnly | PEvent, PEvent => true
+  | PAny x, PAny y | PConstant x, PConstant y => Z.eqb x y
+  | PTyped k x, PTyped l y => vkind_eqb k l && Z.eqb x y
+  | _, _ => false
+  end.
+Definition rule_eqb (a b : rule) : bool :=
+  match a, b with
+  | RPol p, RPol q => policy_eqb p q
+  | RDunder, RDunder | RNone, RNone => true
+  | _, _ => false
+  end.
+
+(* [law_hist mr] with one refinement of the failure codes only: a failure on a name whose
+   class-level rule differs between the MRO reading [mr] and the code's base-order reading [sr]
+   is reported as clause 99 (Proofs.law_tag_nil: law_tag = [] <-> law_hist = []) *)
+Fixpoint law_tag (mr sr : name -> rule) (i : Z) (ls : lstate) (h : list (op * obs)) : list Z :=
+  match h with
+  | [] => []
+  | (o, ob) :: r =>
+      (match law_step mr ls o ob with
+       | [] => []
+       | codes => if rule_eqb (mr (op_name o)) (sr (op_name o))
+                  then map (fun c => 100 * i + c) codes else [100 * i + 99]
+       end) ++ law_tag mr sr (i + 1) (law_next ls o ob) r
+  end.
+
+(* the law knows nothing of caches nor of the order in which update_traits_class_dict merges
+   the bases: the class-level rule is that of the declarations along the MRO *)
 Definition law_codes (c : case) : list Z :=
-  let '(h1, k, pre, h2, cl, hist) := c in
-  law_hist (spec_rule h1 k) 0 l_init pre
-  ++ law_hist (spec_rule (h1 ++ h2) cl) (Z.of_nat (length pre)) l_init hist.
+  let '(h1, k, pre, h2, cl, hist, _) := c in
+  law_tag (mro_rule h1 k) (spec_rule h1 k) 0 l_init pre
+  ++ law_tag (mro_rule (h1 ++ h2) cl) (spec_rule (h1 ++ h2) cl) (Z.of_nat (length pre)) l_init hist.
